@@ -266,6 +266,7 @@ def run(ctx):
     ctx.undecided = ("the Lagrange identity Sigma lambda_i*s_i = s, field/group arithmetic, hashes, verification by an "
                      "external library.")
     ctx.floor = 30
+    refusal_inventory(ctx)
     P = ctx.prog
     wrappers(ctx, ['round2::sign', 'aggregate', 'aggregate_custom', 'round1::commit'])
     # (1) reductions
